@@ -144,3 +144,124 @@ Proof. split; [vm_compute; reflexivity|]. eexists. split; vm_compute; reflexivit
 Lemma peeking_decoders_exact : peeking_decoders =
   [("core/types/block.go", "Block.DecodeRLP"); ("core/types/transaction.go", "Transaction.DecodeRLP")]%string.
 Proof. vm_compute. reflexivity. Qed.
+
+(* what every hand-written RLP coder (and the helpers of its package it calls) does with
+   the decoded field data, pinned: a new call, index or slice expression inside a
+   DecodeRLP / EncodeRLP - e.g. a helper that converts a decoded byte field by its length -
+   breaks this lemma; the harness gives the type of a changed coder a tenfold budget. *)
+Definition coder_calls_expected : list (string * string) := [
+  ("consensus/ucon:Message.DecodeRLP", "s.Decode");
+  ("consensus/ucon:Message.DecodeRLP>Decode", "rlp.DecodeBytes");
+  ("consensus/ucon:Message.EncodeRLP", "rlp.Encode");
+  ("consensus/ucon:Message.EncodeRLP>Encode", "rlp.EncodeToBytes");
+  ("core/state:ValKindStat.DecodeRLP", "s.Decode");
+  ("core/state:ValKindStat.EncodeRLP", "rlp.Encode");
+  ("core/state:Validator.DecodeRLP", "fmt.Errorf");
+  ("core/state:Validator.DecodeRLP", "params.ValidatorRole");
+  ("core/state:Validator.DecodeRLP", "s.Decode");
+  ("core/state:Validator.EncodeRLP", "AliasValidator");
+  ("core/state:Validator.EncodeRLP", "big.NewInt");
+  ("core/state:Validator.EncodeRLP", "new");
+  ("core/state:Validator.EncodeRLP", "rlp.Encode");
+  ("core/state:Validator.EncodeRLP", "uint8");
+  ("core/state:ValidatorIndex.DecodeRLP", "fmt.Errorf");
+  ("core/state:ValidatorIndex.DecodeRLP", "index.data.Store");
+  ("core/state:ValidatorIndex.DecodeRLP", "len");
+  ("core/state:ValidatorIndex.DecodeRLP", "list.Less");
+  ("core/state:ValidatorIndex.DecodeRLP", "s.Decode");
+  ("core/state:ValidatorIndex.DecodeRLP>addressList.Less", "<index>");
+  ("core/state:ValidatorIndex.DecodeRLP>addressList.Less", "a[i].Bytes");
+  ("core/state:ValidatorIndex.DecodeRLP>addressList.Less", "a[j].Bytes");
+  ("core/state:ValidatorIndex.DecodeRLP>addressList.Less", "bytes.Compare");
+  ("core/state:ValidatorIndex.EncodeRLP", "append");
+  ("core/state:ValidatorIndex.EncodeRLP", "index.data.Range");
+  ("core/state:ValidatorIndex.EncodeRLP", "rlp.Encode");
+  ("core/state:ValidatorIndex.EncodeRLP", "sort.Sort");
+  ("core/state:ValidatorIndex.EncodeRLP>journal.append", "<index>");
+  ("core/state:ValidatorIndex.EncodeRLP>journal.append", "append");
+  ("core/state:ValidatorIndex.EncodeRLP>journal.append", "entry.dirtied");
+  ("core/state:Validators.DecodeRLP", "stream.Decode");
+  ("core/state:Validators.EncodeRLP", "rlp.Encode");
+  ("core/state:ValidatorsStat.DecodeRLP", "<index>");
+  ("core/state:ValidatorsStat.DecodeRLP", "s.Decode");
+  ("core/state:ValidatorsStat.EncodeRLP", "<index>");
+  ("core/state:ValidatorsStat.EncodeRLP", "rlp.Encode");
+  ("core/state:pendingRelationship.DecodeRLP", "<index>");
+  ("core/state:pendingRelationship.DecodeRLP", "bi.Split");
+  ("core/state:pendingRelationship.DecodeRLP", "s.Decode");
+  ("core/state:pendingRelationship.DecodeRLP>biAddress.Split", "<slice>");
+  ("core/state:pendingRelationship.DecodeRLP>biAddress.Split", "common.BytesToAddress");
+  ("core/state:pendingRelationship.EncodeRLP", "rlp.Encode");
+  ("core/state:stakingRecord.EncodeRLP", "rlp.Encode");
+  ("core/state:stateObject.EncodeRLP", "rlp.Encode");
+  ("core/types:Block.DecodeRLP", "b.size.Store");
+  ("core/types:Block.DecodeRLP", "common.StorageSize");
+  ("core/types:Block.DecodeRLP", "rlp.ListSize");
+  ("core/types:Block.DecodeRLP", "s.Decode");
+  ("core/types:Block.DecodeRLP", "s.Kind");
+  ("core/types:Block.EncodeRLP", "rlp.Encode");
+  ("core/types:Log.DecodeRLP", "s.Decode");
+  ("core/types:Log.EncodeRLP", "rlp.Encode");
+  ("core/types:LogForStorage.DecodeRLP", "s.Decode");
+  ("core/types:LogForStorage.EncodeRLP", "rlp.Encode");
+  ("core/types:Receipt.DecodeRLP", "r.setStatus");
+  ("core/types:Receipt.DecodeRLP", "s.Decode");
+  ("core/types:Receipt.DecodeRLP>Receipt.setStatus", "bytes.Equal");
+  ("core/types:Receipt.DecodeRLP>Receipt.setStatus", "fmt.Errorf");
+  ("core/types:Receipt.DecodeRLP>Receipt.setStatus", "len");
+  ("core/types:Receipt.EncodeRLP", "r.statusEncoding");
+  ("core/types:Receipt.EncodeRLP", "rlp.Encode");
+  ("core/types:Receipt.EncodeRLP>Receipt.statusEncoding", "len");
+  ("core/types:ReceiptForStorage.DecodeRLP", "(*Receipt)(r).setStatus");
+  ("core/types:ReceiptForStorage.DecodeRLP", "<conversion>");
+  ("core/types:ReceiptForStorage.DecodeRLP", "<index>");
+  ("core/types:ReceiptForStorage.DecodeRLP", "len");
+  ("core/types:ReceiptForStorage.DecodeRLP", "make");
+  ("core/types:ReceiptForStorage.DecodeRLP", "s.Decode");
+  ("core/types:ReceiptForStorage.DecodeRLP>Receipt.setStatus", "bytes.Equal");
+  ("core/types:ReceiptForStorage.DecodeRLP>Receipt.setStatus", "fmt.Errorf");
+  ("core/types:ReceiptForStorage.DecodeRLP>Receipt.setStatus", "len");
+  ("core/types:ReceiptForStorage.EncodeRLP", "(*Receipt)(r).statusEncoding");
+  ("core/types:ReceiptForStorage.EncodeRLP", "<conversion>");
+  ("core/types:ReceiptForStorage.EncodeRLP", "<index>");
+  ("core/types:ReceiptForStorage.EncodeRLP", "len");
+  ("core/types:ReceiptForStorage.EncodeRLP", "make");
+  ("core/types:ReceiptForStorage.EncodeRLP", "rlp.Encode");
+  ("core/types:ReceiptForStorage.EncodeRLP>Receipt.statusEncoding", "len");
+  ("core/types:Transaction.DecodeRLP", "common.StorageSize");
+  ("core/types:Transaction.DecodeRLP", "rlp.ListSize");
+  ("core/types:Transaction.DecodeRLP", "s.Decode");
+  ("core/types:Transaction.DecodeRLP", "s.Kind");
+  ("core/types:Transaction.DecodeRLP", "tx.size.Store");
+  ("core/types:Transaction.EncodeRLP", "rlp.Encode");
+  ("local:Detail.DecodeRLP", "len");
+  ("local:Detail.DecodeRLP", "rlp.DecodeBytes");
+  ("local:Detail.DecodeRLP", "s.Decode");
+  ("local:Detail.EncodeRLP", "<conversion>");
+  ("local:Detail.EncodeRLP", "len");
+  ("local:Detail.EncodeRLP", "rlp.Encode");
+  ("local:Detail.EncodeRLP", "rlp.EncodeToBytes");
+  ("staking:EvidenceDoubleSign.DecodeRLP", "<index>");
+  ("staking:EvidenceDoubleSign.DecodeRLP", "c.Decode");
+  ("staking:EvidenceDoubleSign.DecodeRLP", "common.BytesToHash");
+  ("staking:EvidenceDoubleSign.DecodeRLP", "fmt.Errorf");
+  ("staking:EvidenceDoubleSign.DecodeRLP", "len");
+  ("staking:EvidenceDoubleSign.DecodeRLP", "make");
+  ("staking:EvidenceDoubleSign.EncodeRLP", "<index>");
+  ("staking:EvidenceDoubleSign.EncodeRLP", "<slice>");
+  ("staking:EvidenceDoubleSign.EncodeRLP", "append");
+  ("staking:EvidenceDoubleSign.EncodeRLP", "bytes.Compare");
+  ("staking:EvidenceDoubleSign.EncodeRLP", "h.Bytes");
+  ("staking:EvidenceDoubleSign.EncodeRLP", "len");
+  ("staking:EvidenceDoubleSign.EncodeRLP", "make");
+  ("staking:EvidenceDoubleSign.EncodeRLP", "new");
+  ("staking:EvidenceDoubleSign.EncodeRLP", "new(big.Int).Set");
+  ("staking:EvidenceDoubleSign.EncodeRLP", "rlp.Encode");
+  ("staking:EvidenceDoubleSign.EncodeRLP", "sort.Slice");
+  ("staking:LogData.DecodeRLP", "s.Decode");
+  ("staking:LogData.EncodeRLP", "hexutil.Bytes");
+  ("staking:LogData.EncodeRLP", "rlp.Encode");
+  ("staking:SlashData.DecodeRLP", "s.Decode");
+  ("staking:SlashData.EncodeRLP", "rlp.Encode")]%string.
+Lemma coder_calls_exact : coder_calls = coder_calls_expected.
+Proof. vm_compute. reflexivity. Qed.
